@@ -1,5 +1,77 @@
-"""C04 driver: real simulations from generated programs (see sim.py)"""
+"""C04 driver: real simulations from generated programs (see sim.py); and, for cases with "keys_ops", elementary operations
+(set positions / calc.get_property / context.save_state / driver.revert_state) on a real Canonical object with a calculator that
+computes ONLY what it is asked for - the tie of Model/CalcKeys.v (the calculator's results as a dictionary keyed by property)."""
+import warnings
+
+import numpy as np
+from ase import Atoms
+from ase.calculators.calculator import Calculator, all_changes
+
 from util import serve
 from sim import run_program
 
-serve(run_program)
+from quansino.mc.canonical import Canonical
+
+KEYS = ["energy", "forces", "stress"]
+BASE = np.array([[1.0, 1.0, 1.0], [3.0, 1.5, 1.0], [1.5, 3.25, 2.0]])
+PATTERN = np.array([[0.125, 0.0, 0.25], [0.0, -0.125, 0.0625], [0.25, 0.125, -0.125]])
+
+
+def config(i):
+    return BASE + i * PATTERN
+
+
+def value(k, pos):
+    if k == "energy":
+        return float(np.sum((pos - 2.0) ** 2))
+    if k == "forces":
+        return -2.0 * (pos - 2.0)
+    return np.array([float(np.sum(pos[:, a] * pos[:, b])) for a, b in ((0, 0), (1, 1), (2, 2), (1, 2), (0, 2), (0, 1))])
+
+
+class OnlyAsked(Calculator):
+    """computes only the requested properties (as expensive calculators do)"""
+
+    implemented_properties = KEYS
+
+    def calculate(self, atoms=None, properties=("energy",), system_changes=all_changes):
+        super().calculate(atoms, properties, system_changes)
+        for k in properties:
+            self.results[k] = value(k, self.atoms.positions)
+
+
+def token(k, v, ntok):
+    """which configuration a held value belongs to: i + 1, or 999 when it belongs to none"""
+    for i in range(ntok):
+        if np.allclose(np.asarray(v, dtype=float), np.asarray(value(k, config(i)), dtype=float), rtol=0, atol=1e-12):
+            return i + 1
+    return 999
+
+
+def keys_ops(case):
+    warnings.simplefilter("ignore")
+    ntok = 1 + max([o[1] for o in case["keys_ops"] if o[0] == "p"] + [0])
+    atoms = Atoms("Ar3", positions=config(0), cell=[9.0, 9.0, 9.0], pbc=False)
+    mc = Canonical(atoms, temperature=300.0, seed=1, logfile=None)
+    atoms.calc = OnlyAsked()
+    ctx = mc.context
+    trace = []
+    for o in case["keys_ops"]:
+        if o[0] == "p":
+            atoms.positions = config(o[1])
+        elif o[0] == "q":
+            atoms.calc.get_property(KEYS[o[1]], atoms)
+        elif o[0] == "s":
+            ctx.save_state()
+        else:
+            mc.revert_state()
+        calc = atoms.calc
+        held, last = calc.results, getattr(ctx, "last_results", {}) or {}
+        in_sync = calc.atoms is not None and not calc.check_state(atoms)
+        trace += [int(in_sync), int(held is getattr(ctx, "last_results", None))]
+        trace += [token(k, held[k], ntok) if k in held else 0 for k in KEYS]
+        trace += [token(k, last[k], ntok) if k in last else 0 for k in KEYS]
+    return {"trace": trace}
+
+
+serve(lambda case: keys_ops(case) if "keys_ops" in case else run_program(case))
